@@ -85,6 +85,7 @@ type TermStore struct {
 	// frame check mode (see Fresh)
 	frameMode bool
 	frameSeq  int
+	closed    map[int]bool // memo of HasFreeBound: terms without free bound variables
 }
 
 type FunDecl struct {
@@ -877,6 +878,90 @@ type ScriptOpts struct {
 
 // freeBoundOutside reports whether quantified term q mentions bound variables
 // that are not its own.
+// Mentions reports whether a constant whose name satisfies pred occurs in t.
+func (ts *TermStore) Mentions(t *Term, pred func(name string) bool) bool {
+	seen := map[int]bool{}
+	var rec func(t *Term) bool
+	rec = func(t *Term) bool {
+		if seen[t.ID] {
+			return false
+		}
+		seen[t.ID] = true
+		if strings.HasPrefix(t.Op, "$c:") && pred(t.Op[3:]) {
+			return true
+		}
+		for _, a := range t.Args {
+			if rec(a) {
+				return true
+			}
+		}
+		return false
+	}
+	return rec(t)
+}
+
+// HasQuantifier reports whether t contains a quantifier.
+func (ts *TermStore) HasQuantifier(t *Term) bool {
+	seen := map[int]bool{}
+	var rec func(t *Term) bool
+	rec = func(t *Term) bool {
+		if seen[t.ID] {
+			return false
+		}
+		seen[t.ID] = true
+		if t.Op == "forall" || t.Op == "exists" {
+			return true
+		}
+		for _, a := range t.Args {
+			if rec(a) {
+				return true
+			}
+		}
+		return false
+	}
+	return rec(t)
+}
+
+// HasFreeBound reports whether t mentions a bound variable outside the scope
+// of a quantifier that binds it (such a term cannot be asserted on its own).
+func (ts *TermStore) HasFreeBound(t *Term) bool {
+	if ts.closed == nil {
+		ts.closed = map[int]bool{}
+	}
+	var rec func(t *Term, bound map[*Term]bool) bool
+	rec = func(t *Term, bound map[*Term]bool) bool {
+		if strings.HasPrefix(t.Op, "$b:") {
+			return !bound[t]
+		}
+		if len(t.Args) == 0 {
+			return false
+		}
+		if ts.closed[t.ID] {
+			return false
+		}
+		nb := bound
+		if t.Op == "forall" || t.Op == "exists" {
+			nb = map[*Term]bool{}
+			for k := range bound {
+				nb[k] = true
+			}
+			for _, b := range t.Bnd {
+				nb[b] = true
+			}
+		}
+		for _, a := range t.Args {
+			if rec(a, nb) {
+				return true
+			}
+		}
+		if len(bound) == 0 {
+			ts.closed[t.ID] = true
+		}
+		return false
+	}
+	return rec(t, map[*Term]bool{})
+}
+
 func (ts *TermStore) freeBoundOutside(q *Term) bool {
 	own := map[*Term]bool{}
 	found := false
